@@ -28,7 +28,8 @@ META = {
         ' Also: the clean-up default is decided after layout deduction, copy_all stages one section, `layout` is a PLSSDesc setting, lock-down of layout / segment.'
         ' Round 7: options that PLSSParser defaults by layout (clean_up) reach it as None when not given; the stage-only flag of a replacement ChunkParser is read off __init__ whatever it is called; result caches keyed by everything the skipped parse reads.'
         ' Round 8: segment() is followed for layout == copy_all with a Twp/Rge match (must keep the text in one block).'
-        ' Round 9: the attribute fall-back of PLSSDesc.parse runs whenever the argument is not given (no further state condition).'),
+        ' Round 9: the attribute fall-back of PLSSDesc.parse runs whenever the argument is not given (no further state condition).'
+        ' Round 10: `if chunk_layout is None:` is an accepted form of the deduction lock; a loop-filled settings table is undecided, not a violation.'),
     'families': ['LOCK', 'ONCE', 'TBL', 'DEFUSE', 'FORWARD', 'DEADPARAM', 'SIB-DEFAULTS'],
 }
 
@@ -76,10 +77,15 @@ def _layout_lock(ctx, cl):
         raise AnalysisError("PLSSDesc.parse: PLSSParser call not found")
     kw = {k.arg: k.value for k in calls[0].keywords if k.arg}
     prov = flow.provenance(p.node, kw['layout']) if 'layout' in kw else set()
-    ctx.check('layout' in flow.prov_params(prov) and 'self.layout' in flow.prov_attrs(prov), 'LOCK',
-              'PLSSDesc.parse: layout = keyword if given, else the .layout attribute',
-              detail_bad="the layout handed to PLSSParser does not derive from both the keyword and self.layout",
-              key="LOCK|PLSSDesc.parse|layout")
+    both = 'layout' in flow.prov_params(prov) and 'self.layout' in flow.prov_attrs(prov)
+    # a table of settings filled by a loop (`locked[name] = getattr(self, name)`) is not followed per key
+    table_driven = any(a[0] in ('getattr', 'iter', 'unpack', 'opaque') for a in prov) \
+        or any(c.split('.')[-1] in ('pop', 'get') for c in flow.prov_calls(prov))
+    ctx.tri(both, not both and not table_driven, 'LOCK',
+            'PLSSDesc.parse: layout = keyword if given, else the .layout attribute',
+            detail_bad="the layout handed to PLSSParser does not derive from both the keyword and self.layout",
+            key="LOCK|PLSSDesc.parse|layout",
+            why="the layout handed to PLSSParser comes out of a table of settings that a loop fills; not followed per key")
     # the attribute is consulted only when no layout argument was given
     fbs = [n for n in walk_local(p.node) if isinstance(n, ast.Assign) and norm(n) == 'layout = self.layout']
     for n in fbs:
@@ -169,7 +175,11 @@ def _layout_lock(ctx, cl):
     m_copy = any(mentions(pc, t, 'COPY_ALL') for t in gts)
     m_mand = any(mentions(pc, t, 'mandate_layout') for t in gts)
     ok = ok or (m_copy and m_mand)
-    ctx.tri(ok, bool(ded) and not m_copy and not m_mand, 'LOCK',
+    # `if chunk_layout is None: chunk_layout = deduce_layout(chunk)`: deduction only fills in a layout
+    # that was not handed down (PLSSParser.parse hands down copy_all / a mandated layout, checked above)
+    only_missing = bool(ded) and any(txt == 'chunk_layout is None' and pol for _t, txt, pol in literals(guards(ded[0])))
+    ok = ok or only_missing
+    ctx.tri(ok, bool(ded) and not m_copy and not m_mand and not ok, 'LOCK',
             'parse_chunk: deduction never overrides copy_all or a mandated layout',
             detail_bad="chunk-level deduce_layout runs unguarded: a forced layout is re-deduced per chunk",
             key="LOCK|parse_chunk|deduce")
@@ -184,12 +194,30 @@ def _layout_lock(ctx, cl):
     seg_txt = ' '.join(norm(x) for x in walk_local(seg.node) if isinstance(x, ast.stmt))
     # decided by following segment() for layout == COPY_ALL with at least one Twp/Rge match: the walk
     # must reach `self.blocks.append(text)` and return without calling a _segment_* method
+    verdict = follow_segment(ctx, seg, 'COPY_ALL', ('m',))
+    if verdict is None:
+        ctx.tri(ok, 'COPY_ALL' not in seg_txt, 'LOCK', 'PLSSChunker.segment keeps copy_all text in one block',
+                detail_bad="segment() no longer treats copy_all specially: a copy_all text that contains Twp/Rges is cut into chunks",
+                key="LOCK|segment|copyall")
+    else:
+        ctx.check(verdict == 'kept', 'LOCK', 'PLSSChunker.segment keeps copy_all text in one block',
+                  'followed for layout == copy_all with a Twp/Rge match',
+                  f"for layout copy_all and a text that contains a Twp/Rge, segment() {verdict}: a description that is deduced (or "
+                  f"dictated) as copy_all is cut at each Twp/Rge into several partial tracts, and text before the first one is lost",
+                  key="LOCK|segment|copyall")
+
+
+def follow_segment(ctx, seg, layout_name, matches):
+    """Follow PLSSChunker.segment() for a given layout constant and a given
+    (symbolic) list of Twp/Rge matches: 'kept' when the walk reaches
+    `self.blocks.append(text)`, otherwise what it did instead; None when the
+    body has a shape the walk does not cover."""
     from .. import ccp
     verdict = None
     try:
         names = layout_classes(ctx)['names']
         env = dict(names)
-        env.update({'layout': names.get('COPY_ALL', 'copy_all'), 'matches': ('m',), 'text': 'text'})
+        env.update({'layout': names.get(layout_name, layout_name.lower()), 'matches': matches, 'text': 'text'})
         stmts = list(seg.node.body)
         steps = 0
         while stmts and verdict is None and steps < 50:
@@ -213,18 +241,11 @@ def _layout_lock(ctx, cl):
                 env[st.targets[0].id] = ccp.ev(st.value, env)
             else:
                 raise ccp.Unsupported(type(st).__name__)
-    except ccp.Unsupported as e:
+        if verdict is None and not stmts:
+            verdict = 'fell off the end without keeping the text'
+    except ccp.Unsupported:
         verdict = None
-    if verdict is None:
-        ctx.tri(ok, 'COPY_ALL' not in seg_txt, 'LOCK', 'PLSSChunker.segment keeps copy_all text in one block',
-                detail_bad="segment() no longer treats copy_all specially: a copy_all text that contains Twp/Rges is cut into chunks",
-                key="LOCK|segment|copyall")
-    else:
-        ctx.check(verdict == 'kept', 'LOCK', 'PLSSChunker.segment keeps copy_all text in one block',
-                  'followed for layout == copy_all with a Twp/Rge match',
-                  f"for layout copy_all and a text that contains a Twp/Rge, segment() {verdict}: a description that is deduced (or "
-                  f"dictated) as copy_all is cut at each Twp/Rge into several partial tracts, and text before the first one is lost",
-                  key="LOCK|segment|copyall")
+    return verdict
 
 
 def chunk_layout_conditions(pp):
